@@ -60,6 +60,33 @@ class LMixedNode(LNode):                      # slots from the base class plus a
         self.colour = "c%d" % label
 
 
+class _LPriv(LightNodeMixin):                 # a class name with a leading underscore and a name-mangled private slot
+    __slots__ = ("label", "__secret")
+
+    def __init__(self, label, parent=None):
+        self.label = label
+        self.__secret = {"k": label}
+        self.parent = parent
+
+
+class LStr(LightNodeMixin):                   # `__slots__` given as a single string: one slot
+    __slots__ = "label"
+
+    def __init__(self, label, parent=None):
+        self.label = label
+        self.parent = parent
+
+
+def _slot_attrs(o):
+    import copyreg
+    out = {}
+    for name in copyreg._slotnames(type(o)):
+        if not name.startswith("_LightNodeMixin") and hasattr(o, name):
+            out[name] = getattr(o, name)
+    out.update(getattr(o, "__dict__", {}))
+    return out
+
+
 def make(kind, label, target=None):
     if kind == "node":
         return Node("n%d" % label, label=label)
@@ -77,6 +104,10 @@ def make(kind, label, target=None):
         return LDictNode(label)
     if kind == "lightmixed":
         return LMixedNode(label)
+    if kind == "lightpriv":
+        return _LPriv(label)
+    if kind == "lightstr":
+        return LStr(label)
     if kind == "symlink":
         return SymlinkNode(target)
     raise ValueError(kind)
@@ -108,6 +139,8 @@ def describe(entry):
             attrs = {"label": o.label, "extra": list(o.extra), "name": o.name,
                      "opt": repr(getattr(o, "opt", "<unset>")), "unset": repr(getattr(o, "unset", "<unset>"))}
             attrs.update({k: v for k, v in getattr(o, "__dict__", {}).items()})
+        elif isinstance(o, (_LPriv, LStr)):
+            attrs = _slot_attrs(o)
         elif isinstance(o, LDictNode):
             attrs = {k: v for k, v in o.__dict__.items() if not k.startswith("_LightNodeMixin")}
         else:
